@@ -61,3 +61,13 @@ package loader
 //@   loop 1 invariant forall n string :: seen(n) && n in override && !old(n in base) ==> base[n] == override[n]
 //@   loop 1 invariant forall n string :: !(n in override) && old(n in base) ==> base[n] == old(base[n])
 //@   loop 1 invariant forall n string :: (n in override) == old(n in override)
+
+// C07: a configuration that names an undefined dependency is rejected, whatever the markings of the process
+// that names it; an accepted configuration has every depends_on target defined.
+//@ func validateDependencyIsEnabled
+//@   requires p != nil
+//@   ensures dangling-rejected: result == nil ==> (forall a string, d string :: a in p.Processes && d in p.Processes[a].DependsOn ==> d in p.Processes)
+//@   assigns nothing
+//@   loop 1 invariant forall a string, d string :: seen1(a) && a in p.Processes && d in p.Processes[a].DependsOn ==> d in p.Processes
+//@   loop 2 invariant forall a string, d string :: seen1(a) && a != curkey1() && a in p.Processes && d in p.Processes[a].DependsOn ==> d in p.Processes
+//@   loop 2 invariant forall d string :: seen2(d) && curkey1() in p.Processes && d in p.Processes[curkey1()].DependsOn ==> d in p.Processes
